@@ -94,8 +94,10 @@ def qsOf : Query → Text
   | .str q => if q = [] then [] else '?' :: quote Gen.querySafe q
   | .pairs ps truthy => if ps = [] && !truthy then [] else '?' :: urlencode ps
 
-/-- the `frag` of `parse_url_overrides` (`None` and `''` are both falsy) -/
-def fragOf (anchor : Text) : Text := if anchor = [] then [] else '#' :: quote Gen.anchorSafe anchor
+/-- the `frag` of `parse_url_overrides` (`None` and `''` are both falsy; `truthy`: the anchor object is true
+although its text is empty — an object whose `__str__` returns `''` — which gives a bare `#`) -/
+def fragOf (anchor : Text) (truthy : Bool := false) : Text :=
+  if anchor = [] && !truthy then [] else '#' :: quote Gen.anchorSafe anchor
 
 /-! ### the application URL -/
 
@@ -116,6 +118,7 @@ structure Ovr where
   port : Option Text := none      -- `str(port)`
   query : Query := .absent
   anchor : Text := []
+  anchorTruthy : Bool := false    -- the anchor object is true although `str()` of it is empty
 deriving Repr
 
 /-- `request._quoted_script_name()` -/
@@ -269,7 +272,7 @@ def routeUrl (e : Env) (routes : Routes) (name : Text) (elems : List Text) (kw :
   | some pieces =>
     match routeGenerate kw pieces with
     | .error er => .error er
-    | .ok path => .ok (appUrlOf e o ++ path ++ routeSuffix path elems ++ qsOf o.query ++ fragOf o.anchor)
+    | .ok path => .ok (appUrlOf e o ++ path ++ routeSuffix path elems ++ qsOf o.query ++ fragOf o.anchor o.anchorTruthy)
 
 /-- `request.route_path(…)`: `kw['_app_url'] = self._quoted_script_name()` -/
 def routePath (e : Env) (routes : Routes) (name : Text) (elems : List Text) (kw : Kw) (o : Ovr) : Except Err Text :=
@@ -301,7 +304,7 @@ def resourceUrl (e : Env) (routes : Routes) (names : List Text) (elems : List Te
     routeUrl e routes r.routeName elems (r.routeKw ++ [(r.remainderName, .many (virtualPathTuple names))]) o
   | none =>
     let suffix := if elems = [] then [] else joinElements elems
-    .ok (appUrlOf e o ++ virtualPath names ++ suffix ++ qsOf o.query ++ fragOf o.anchor)
+    .ok (appUrlOf e o ++ virtualPath names ++ suffix ++ qsOf o.query ++ fragOf o.anchor o.anchorTruthy)
 
 /-- `request.resource_path(…)`: `kw['app_url'] = self._quoted_script_name()` -/
 def resourcePath (e : Env) (routes : Routes) (names : List Text) (elems : List Text) (o : Ovr)
@@ -337,8 +340,8 @@ def staticUrl (e : Env) (routes : Routes) (regs : List StaticReg) (path : Text) 
       let base : Text := match u with
         | '/' :: '/' :: _ => e.scheme ++ ':' :: u          -- `urlunparse(parsed._replace(scheme=request.scheme))`
         | _ => u
-      if sub = [] then .ok (base ++ qsOf o.query ++ fragOf o.anchor)
-      else if cleanSubpath sub then .ok (base ++ quote [47] sub ++ qsOf o.query ++ fragOf o.anchor)
+      if sub = [] then .ok (base ++ qsOf o.query ++ fragOf o.anchor o.anchorTruthy)
+      else if cleanSubpath sub then .ok (base ++ quote [47] sub ++ qsOf o.query ++ fragOf o.anchor o.anchorTruthy)
       else .error .outside                                  -- urljoin's dot-segment / empty-segment handling
 
 /-- `request.static_path(…)`: `kw['_app_url'] = self._quoted_script_name()` -/
